@@ -230,6 +230,46 @@ pub fn run(tier: &str, seed: u64, s: &mut Sink) {
             }
         }
     }
+    // --- large packets: every bit of the 12-bit keep_last field set on an accepted packet (keep_last = 2^k needs
+    // (2^k - 1) * 2 - 2 < n samples), the largest sample counts a u16 requested_samples admits, and the
+    // keep_last / sample-count boundary at those sizes
+    for k in 6..12u32 {
+        for d in [-1i64, 0, 1] {
+            let kl = ((1i64 << k) + d) as u16;
+            let last_index = (kl as usize - 1) * 2 - 2;
+            for extra in [0usize, 1, 70] {
+                for supp in [false, true] {
+                    let mut p = valid(&mut r);
+                    p.samples = samples(&mut r, last_index + extra);
+                    p.keep_bit = true;
+                    p.keep_last = kl;
+                    p.supp = supp;
+                    p.req = (p.samples.len() + 2 + if supp { r.pick(&[0usize, 1, 5]) } else { 0 }) as u16;
+                    emit(s, "large-keep-last", &p.long());
+                }
+            }
+        }
+    }
+    for n in [8190usize, 32766, 65532, 65533] {
+        for (supp, kl) in [(false, 0u16), (true, 4095), (true, 34)] {
+            let mut p = valid(&mut r);
+            p.samples = samples(&mut r, n);
+            p.keep_bit = supp;
+            p.keep_last = kl;
+            p.supp = supp;
+            p.req = (n + 2).min(65535) as u16;
+            emit(s, "large-sample-count", &p.long());
+            p.req = (n + 1).min(65535) as u16;
+            emit(s, "large-sample-count", &p.long());
+        }
+    }
+    for kl in [2047u16, 2048, 2049] {
+        let mut p = valid(&mut r);
+        p.supp = true;
+        p.keep_bit = false;
+        p.keep_last = kl;
+        emit(s, "short-form", &p.short());
+    }
     // --- short form: all footer flag combinations, keep_last 0/1, unused bits, lengths around 16
     for supp in [false, true] {
         for keep_bit in [false, true] {
